@@ -97,22 +97,16 @@ func (f *FBaseProcessor) Process(iprot, oprot *FProtocol) error {
 	ex := thrift.NewTApplicationException(APPLICATION_EXCEPTION_UNKNOWN_METHOD, "Unknown function "+name)
 	f.writeMu.Lock()
 	defer f.writeMu.Unlock()
-	if err := oprot.WriteResponseHeader(fctx); err != nil {
-		return err
+	err = writeException(ctx, oprot, fctx.ResponseHeaders(), name, ex)
+	if IsErrTooLarge(err) {
+		// As in sendError: the response headers (the echoed correlation id)
+		// leave no room for the answer within the size limit of the output.
+		// The caller is waiting on the op id: answer with that header only.
+		resetProtocol(oprot)
+		opid, _ := fctx.ResponseHeader(opIDHeader)
+		err = writeException(ctx, oprot, map[string]string{opIDHeader: opid}, name, ex)
 	}
-	if err := oprot.WriteMessageBegin(ctx, name, thrift.EXCEPTION, 0); err != nil {
-		return err
-	}
-	if err := ex.Write(ctx, oprot); err != nil {
-		return err
-	}
-	if err := oprot.WriteMessageEnd(ctx); err != nil {
-		return err
-	}
-	if err := oprot.Flush(ctx); err != nil {
-		return err
-	}
-	return nil
+	return err
 }
 
 // AddMiddleware adds the given ServiceMiddleware to the FProcessor. This
